@@ -74,9 +74,13 @@ StepBad(e, A, G, ordBefore) ==
                            IF InSeq(ordBefore, e.f) THEN Head(ordBefore) # e.f ELSE ordBefore # <<>>)
                      \/ (e.op = "try_lock" /\ e.res = "some" /\ ordBefore # <<>>)
       c17 == \/ ("term" \in DOMAIN e /\ e.term # SetToSortedSeq({f \in Slots : A[f] = "done"}))
+             \* threaded runs report is_terminated() of the polled future only
+             \/ ("fterm" \in DOMAIN e /\ e.op = "poll" /\ e.fterm # (A[e.f] = "done"))
              \/ (e.op = "poll_done" /\ e.res # "panic")
       c18 == "alloc" \in DOMAIN e /\ e.alloc # 0
-  IN (IF c01 THEN {"C01"} ELSE {}) \cup (IF c02 THEN {"C02"} ELSE {})
+      \* a threaded run in which every task ended up parked: a lost wake-up
+      cdl == e.op = "abort" /\ "res" \in DOMAIN e /\ e.res = "deadlock"
+  IN (IF cdl THEN {"C03"} ELSE {}) \cup (IF c01 THEN {"C01"} ELSE {}) \cup (IF c02 THEN {"C02"} ELSE {})
      \cup (IF c04 THEN {"C04"} ELSE {}) \cup (IF c17 THEN {"C17"} ELSE {})
      \cup (IF c18 THEN {"C18"} ELSE {})
 
